@@ -841,3 +841,40 @@ def scalar_dtype_from_data(P, R, rule):
                 f'`{norm(r_)}` reports a dtype that does not come from the data the scalar holds (a remembered constructor argument): an element rebuilt from python values holds 64-bit data, '
                 'its buffers are then reinterpreted with the parent array\'s narrower width and every coordinate is garbage', construct=f'numpy_dtype: {norm(r_)[:40]}')
     return n
+
+
+def scratch_per_iteration(P, R, rule, modules):
+    """A scratch buffer that decides the answer of ONE element (its `.any()` / `.all()` / `.sum()` is that element's result) belongs to that element: it is allocated
+    inside the per-element loop, or the reduction is restricted to the part that was reset for this element.  Allocated once before the loop, partly cleared
+    per element and reduced as a whole, it carries the flags of earlier elements into later ones: an element's answer then depends on its predecessors
+    (a slice, a take or another order of the same elements answers differently)."""
+    n = 0
+    for m in P.mods.values():
+        if m.name not in modules:
+            continue
+        for f in m.funcs.values():
+            if isinstance(f.node, ast.Lambda):
+                continue
+            allocs = {}
+            for st in f.node.body:
+                if isinstance(st, ast.Assign) and len(st.targets) == 1 and isinstance(st.targets[0], ast.Name) and isinstance(st.value, ast.Call) \
+                        and norm(st.value.func) in ('np.zeros', 'np.empty', 'np.ones', 'np.full', 'numpy.zeros', 'numpy.empty'):
+                    allocs[st.targets[0].id] = st
+            for lp in [x for x in f.node.body if isinstance(x, ast.For)]:
+                for name, st in allocs.items():
+                    if st.lineno > lp.lineno:
+                        continue
+                    reds = [x for x in ast.walk(lp) if isinstance(x, ast.Call) and ((isinstance(x.func, ast.Attribute) and x.func.attr in ('any', 'all', 'sum', 'max', 'min') and isinstance(x.func.value, ast.Name) and x.func.value.id == name)
+                                                                                 or (norm(x.func) in ('np.any', 'np.all', 'np.sum', 'any', 'all') and x.args and isinstance(x.args[0], ast.Name) and x.args[0].id == name))]
+                    if not reds:
+                        continue
+                    # how the buffer is reset inside the loop
+                    resets = [x for x in ast.walk(lp) if isinstance(x, ast.Assign) and isinstance(x.targets[0], ast.Subscript) and isinstance(x.targets[0].value, ast.Name) and x.targets[0].value.id == name
+                              and isinstance(x.value, ast.Constant)]
+                    full = [x for x in resets if isinstance(x.targets[0].slice, ast.Slice) and x.targets[0].slice.lower is None and x.targets[0].slice.upper is None] + \
+                        [x for x in ast.walk(lp) if isinstance(x, ast.Call) and isinstance(x.func, ast.Attribute) and x.func.attr == 'fill' and isinstance(x.func.value, ast.Name) and x.func.value.id == name]
+                    n += 1
+                    R.check(bool(full), rule, f, reds[0], f'`{name}` (allocated once, reduced per element) is cleared as a whole for every element',
+                            f'`{norm(reds[0])}` reduces the whole of `{name}`, which is allocated once before the loop and ' + ('only partly reset (`' + norm(resets[0]) + '`)' if resets else 'never reset') +
+                            ' per element: flags set for an earlier element decide later ones - the answer of an element depends on the elements before it', construct=f'{f.qualname}: scratch {name} per element')
+    return n
